@@ -14,8 +14,12 @@ Variable oc : bool.
 Variable v : ver.
 Notation cspec := (combine_spec H v).
 Notation bdata := (bt_data H v).
-Notation stored_at := (stored_at H v).
-Notation rpeaks_at := (rpeaks_at H v).
+(** the store predicate: [stored_at] for the fully loaded tree, [root_at] for a partial view *)
+Variable sat : list (Z * entry) -> Z -> bt -> Prop.
+Hypothesis SO : sat_ok H v sat.
+Notation stored_at := sat.
+Notation rpeaks_at := (rpeaks_at sat).
+Notation spine_at := (spine_at H v sat).
 Notation rbag_den := (rbag_den H v).
 Notation rbagd := (rbagd H v).
 
@@ -71,7 +75,7 @@ Lemma get_peaks_single f t h T e b h0 :
   perfect h T -> stored_at (t_stored t) (e - bt_size T) T -> seg_ok b h0 (bt_leaves T) ->
   bt_size T <= u32_max -> get_peaks (S f) t (Stored (e - 1)) = Ok [Stored (e - 1)].
 Proof.
-  intros P S G B. cbn [get_peaks]. rewrite (resolve_peak H v t T e S). cbn [tbind].
+  intros P S G B. cbn [get_peaks]. rewrite (resolve_peak H v sat SO t T e S). cbn [tbind].
   unfold complete. rewrite (peak_count _ h T b h0 P G B), is_pow2_p2. reflexivity.
 Qed.
 
@@ -94,7 +98,7 @@ Proof.
   destruct rest as [|[h' T'] rest'].
   - cbn [trs map snd rbag_den rpeaks_at rlinks rev app] in *. subst lk. destruct PK as [S _].
     eapply get_peaks_single; eauto.
-  - destruct (resolve_bag H v t _ e lk BD PK) as (en & Res & ED & lk' & EK & BD').
+  - destruct (resolve_bag H v sat SO t _ e lk BD PK) as (en & Res & ED & lk' & EK & BD').
     cbn [get_peaks]. rewrite Res. cbn [tbind].
     assert (LC : leaf_count en = Ok (lsum (hts ((h, T) :: (h', T') :: rest')))).
     { apply (bag_count en ((h, T) :: (h', T') :: rest') b h0); [congruence|exact P| |exact B|exact ED].
@@ -179,20 +183,27 @@ Proof.
     cbn [trs map snd rleaves rpeaks_at rlinks] in *. fold (trs rest) in *.
     destruct (seg_ok_app _ _ _ _ G) as [Grest GT]. destruct PK as [ST PK'].
     cbn [hts map fst incr] in I. destruct I as [L I].
-    cbn [merge_loop]. rewrite (resolve_peak H v t T e ST), RT. cbn [tbind].
+    cbn [merge_loop]. rewrite (resolve_peak H v sat SO t T e ST), RT. cbn [tbind].
     rewrite (peak_count _ h T b _ PT GT BT), LT. cbn [tbind].
     destruct (p2 h =? p2 ht) eqn:E.
     { apply Z.eqb_eq, p2_inj in E. lia. }
     rewrite (IH (e - bt_size T) t (Stored (e - 1)) h (mkEntry (bt_kind (e - bt_size T) T) (bdata T)) (top :: stack) acc b h0); auto.
     + cbn [rev]. rewrite <- app_assoc. reflexivity.
-    + apply resolve_peak. exact ST.
+    + apply (resolve_peak H v sat SO). exact ST.
     + apply (peak_count _ h T b _ PT GT BT).
 Qed.
+
+(** the last peak has its right spine (and the left children hanging off it) in the store *)
+Definition last_spine (t : tree) (R : list (nat * bt)) : Prop :=
+  match trs R with
+  | T :: _ => spine_at (t_stored t) (t_count t - bt_size T) T
+  | [] => False
+  end.
 
 (** Phase A: the merged tree [M] (height [j], stored at [e .. count)) absorbs equal-sized peaks. *)
 Lemma merge_A : forall R j M e t acc b h0,
   perfs R -> incr j (hts R) -> perfect j M ->
-  rpeaks_at (t_stored t) (trs R) e -> stored_at (t_stored t) e M ->
+  rpeaks_at (t_stored t) (trs R) e -> stored_at (t_stored t) e M -> spine_at (t_stored t) e M ->
   t_count t = e + bt_size M -> e = total (trs R) ->
   seg_ok b h0 (rleaves (trs R) ++ bt_leaves M) ->
   total (trs (merge_R j M R)) <= u32_max ->
@@ -201,12 +212,13 @@ Lemma merge_A : forall R j M e t acc b h0,
     = Ok (t', rev (rlinks (trs (merge_R j M R)) (t_count t')), rev (merged_links (t_count t) j R) ++ acc) /\
     rpeaks_at (t_stored t') (trs (merge_R j M R)) (t_count t') /\
     t_count t' = total (trs (merge_R j M R)) /\
-    t_gen t' = t_gen t /\ t_root t' = t_root t.
+    t_gen t' = t_gen t /\ t_root t' = t_root t /\ last_spine t' (merge_R j M R).
 Proof.
-  induction R as [|[h T] rest IH]; intros j M e t acc b h0 P I PM PK SM C E G B.
+  induction R as [|[h T] rest IH]; intros j M e t acc b h0 P I PM PK SM SPM C E G B.
   - cbn [trs map snd rlinks merge_loop merge_R merged_links rev app total rpeaks_at] in *.
     exists t. subst e. replace (t_count t - bt_size M) with 0 by lia.
-    split; [reflexivity|]. split; [split; [exact SM|exact I]|]. split; [lia|auto].
+    split; [reflexivity|]. split; [split; [exact SM|exact I]|]. split; [lia|]. split; [reflexivity|]. split; [reflexivity|].
+    unfold last_spine. cbn [trs map snd]. replace (t_count t - bt_size M) with 0 by lia. exact SPM.
   - inversion P as [|? ? PT Prest]; subst h0 (* keep *) || idtac.
     inversion P as [|? ? PT' Prest']; subst. cbn [fst snd] in PT'.
     cbn [hts map fst incr] in I. destruct I as [L I].
@@ -223,12 +235,12 @@ Proof.
     assert (BM : bt_size M <= u32_max) by lia.
     cbn [merge_loop].
     assert (RT : resolve_link t (Stored (bt_size T + total (trs rest) - 1)) = Ok (mkEntry (bt_kind (total (trs rest)) T) (bdata T))).
-    { pose proof (resolve_peak H v t T (bt_size T + total (trs rest))) as X.
+    { pose proof (resolve_peak H v sat SO t T (bt_size T + total (trs rest))) as X.
       replace (bt_size T + total (trs rest) - bt_size T) with (total (trs rest)) in X by lia. apply X; exact ST. }
     rewrite RT.
     assert (RM : resolve_link t (Stored (t_count t - 1)) = Ok (mkEntry (bt_kind (total (trs rest) + bt_size T) M) (bdata M))).
     { replace (t_count t - 1) with ((t_count t) - 1) by lia.
-      pose proof (resolve_peak H v t M (t_count t)) as X. replace (t_count t - bt_size M) with (bt_size T + total (trs rest)) in X by lia.
+      pose proof (resolve_peak H v sat SO t M (t_count t)) as X. replace (t_count t - bt_size M) with (bt_size T + total (trs rest)) in X by lia.
       replace (total (trs rest) + bt_size T) with (bt_size T + total (trs rest)) by lia. apply X. exact SM. }
     rewrite RM. cbn [tbind].
     rewrite (peak_count _ h T b _ PT' GT BT), (peak_count _ j M b _ PM GM BM). cbn [tbind].
@@ -248,14 +260,22 @@ Proof.
       set (t1 := mkTree (insert (t_count t) ent (t_stored t)) (t_gen t) (t_count t + 1) (t_root t)).
       assert (EXT : forall i, i < t_count t -> lookup i (t_stored t1) = lookup i (t_stored t)).
       { intros i Hi. unfold t1. cbn [t_stored]. rewrite lookup_insert. destruct (t_count t =? i) eqn:X; [lia|reflexivity]. }
-      destruct (IH (S j) (BN T M) (total (trs rest)) t1 (Stored (t_count t) :: acc) b h0) as (t' & ML & PK2 & C2 & G2 & R2); auto.
+      destruct (IH (S j) (BN T M) (total (trs rest)) t1 (Stored (t_count t) :: acc) b h0) as (t' & ML & PK2 & C2 & G2 & R2 & LS2); auto.
       * cbn [perfect]. auto.
-      * eapply rpeaks_at_ext; [|exact PK']. intros; apply EXT. lia.
+      * eapply (rpeaks_at_ext H v sat SO); [|exact PK']. intros; apply EXT. lia.
         (* offsets *)
-      * cbn [ProofsStore.stored_at]. split; [|split].
-        -- eapply stored_at_ext; [|exact ST].
+      * apply (so_node H v sat SO).
+        -- eapply (sat_ext H v sat SO); [|exact ST].
            intros; apply EXT; lia.
-        -- eapply stored_at_ext; [|replace (total (trs rest) + bt_size T) with (bt_size T + total (trs rest)) by lia; exact SM].
+        -- eapply (sat_ext H v sat SO); [|replace (total (trs rest) + bt_size T) with (bt_size T + total (trs rest)) by lia; exact SM].
+           intros; apply EXT; lia.
+        -- unfold t1. cbn [t_stored]. rewrite lookup_insert.
+           replace (t_count t =? total (trs rest) + bt_size T + bt_size M) with true by lia.
+           unfold ent. cbn [bt_kind bt_data]. do 4 f_equal; lia.
+      * cbn [ProofsStore.spine_at]. split; [|split].
+        -- eapply (sat_ext H v sat SO); [|exact ST].
+           intros; apply EXT; lia.
+        -- eapply (spine_at_ext H v sat SO); [|replace (total (trs rest) + bt_size T) with (bt_size T + total (trs rest)) by lia; exact SPM].
            intros; apply EXT; lia.
         -- unfold t1. cbn [t_stored]. rewrite lookup_insert.
            replace (t_count t =? total (trs rest) + bt_size T + bt_size M) with true by lia.
@@ -265,7 +285,7 @@ Proof.
       * exists t'. split.
         -- replace (t_count t1 - 1) with (t_count t) in ML by (unfold t1; cbn [t_count]; lia).
            cbn [tbind]. rewrite ML. unfold t1. cbn [t_count rev]. rewrite <- app_assoc. reflexivity.
-        -- split; [exact PK2|]. split; [exact C2|]. split; [rewrite G2; reflexivity|rewrite R2; reflexivity].
+        -- split; [exact PK2|]. split; [exact C2|]. split; [rewrite G2; reflexivity|]. split; [rewrite R2; reflexivity|exact LS2].
     + apply Nat.eqb_neq in Ehj.
       destruct (p2 h =? p2 j) eqn:E2; [apply Z.eqb_eq, p2_inj in E2; lia|].
       erewrite (merge_B rest (total (trs rest)) t (Stored (bt_size T + total (trs rest) - 1)) h _
@@ -280,7 +300,8 @@ Proof.
         { replace (t_count t - bt_size M) with (bt_size T + total (trs rest)) by lia.
           replace (bt_size T + total (trs rest) - bt_size T) with (total (trs rest)) by lia.
           split; [exact SM|]. split; [exact ST|exact PK']. }
-        split; [unfold trs in *; lia|auto].
+        split; [unfold trs in *; lia|]. split; [reflexivity|]. split; [reflexivity|].
+        unfold last_spine. cbn [trs map snd]. replace (t_count t - bt_size M) with (bt_size T + total (trs rest)) by lia. exact SPM.
       * lia.
       * exact RT.
       * apply (peak_count _ h T b _ PT' GT BT).
@@ -307,10 +328,10 @@ Proof.
     apply rpeaks_at_app in PK. destruct PK as [PKA PKX].
     rewrite rleaves_app in G. destruct (seg_ok_app _ _ _ _ G) as [GXD _].
     assert (PKX' := PKX). cbn [rpeaks_at] in PKX'. destruct PKX' as [SX PKD].
-    destruct (resolve_bag H v t Rdone (e - total A - bt_size X) lk) as (en & Res & ED & _).
+    destruct (resolve_bag H v sat SO t Rdone (e - total A - bt_size X) lk) as (en & Res & ED & _).
     { replace (e - total A - bt_size X) with (e - (total A + (bt_size X + 0))) by lia. exact BD. }
     { exact PKD. }
-    cbn [bag_loop]. rewrite Res, (resolve_peak H v t X _ SX). cbn [tbind].
+    cbn [bag_loop]. rewrite Res, (resolve_peak H v sat SO t X _ SX). cbn [tbind].
     (* the combination succeeds *)
     assert (NEX : X :: Rdone <> []) by discriminate.
     pose proof (rbagd_facts H v (X :: Rdone) b h0 NEX GXD) as (_ & _ & _ & FX & _).
@@ -346,7 +367,7 @@ Theorem append_inv t R d b h0 :
   total (trs (merge_R 0 (BL d) R)) <= u32_max ->
   exists t',
     append_leaf H oc v t d = Ok (t', Stored (t_count t) :: merged_links (t_count t + 1) 0 R) /\
-    inv t' (merge_R 0 (BL d) R).
+    inv t' (merge_R 0 (BL d) R) /\ last_spine t' (merge_R 0 (BL d) R).
 Proof.
   intros [NE P I PK C RD] G B.
   pose proof (merge_R_total 0 (BL d) R) as MT. cbn [bt_size] in MT.
@@ -357,7 +378,7 @@ Proof.
   { intros i Hi. unfold t1. cbn [t_stored]. rewrite lookup_insert. destruct (t_count t =? i) eqn:X; [lia|reflexivity]. }
   destruct (seg_ok_app _ _ _ _ G) as [GR Gd].
   assert (PK1 : rpeaks_at (t_stored t1) (trs R) (t_count t)).
-  { eapply rpeaks_at_ext; [|exact PK]. intros; apply EXT; lia. }
+  { eapply (rpeaks_at_ext H v sat SO); [|exact PK]. intros; apply EXT; lia. }
   (* number of peaks is small *)
   assert (LR : (length R < FUEL)%nat).
   { assert (HN : hts R <> []) by (destruct R; [congruence|discriminate]).
@@ -373,10 +394,12 @@ Proof.
   rewrite (get_peaks_ok R FUEL t1 (t_count t) (t_root t) b h0); auto; [|lia].
   cbn [tbind]. rewrite rev_involutive.
   assert (SM : stored_at (t_stored t1) (t_count t) (BL d)).
-  { cbn [ProofsStore.stored_at]. unfold t1. cbn [t_stored]. rewrite lookup_insert, Z.eqb_refl. reflexivity. }
+  { apply (so_leaf H v sat SO). unfold t1. cbn [t_stored]. rewrite lookup_insert, Z.eqb_refl. reflexivity. }
   assert (C1 : t_count t1 = t_count t + bt_size (BL d)) by (unfold t1; cbn [t_count bt_size]; lia).
-  destruct (merge_A R 0 (BL d) (t_count t) t1 [Stored (t_count t)] b h0 P I Logic.I PK1 SM C1 C G B)
-    as (t2 & ML & PK2 & C2 & G2 & R2).
+  assert (SPM : spine_at (t_stored t1) (t_count t) (BL d)).
+  { cbn [ProofsStore.spine_at]. unfold t1. cbn [t_stored]. rewrite lookup_insert, Z.eqb_refl. reflexivity. }
+  destruct (merge_A R 0 (BL d) (t_count t) t1 [Stored (t_count t)] b h0 P I Logic.I PK1 SM SPM C1 C G B)
+    as (t2 & ML & PK2 & C2 & G2 & R2 & LS2).
   replace (t_count t1 - 1) with (t_count t) in ML by (unfold t1; cbn [t_count]; lia).
   rewrite ML. cbn [tbind].
   destruct (merge_R_props 0 (BL d) R P I Logic.I) as (NE' & P' & I').
@@ -394,11 +417,12 @@ Proof.
   + rewrite BL'. cbn [tbind]. eexists. split.
     * f_equal. f_equal. rewrite rev_app_distr. cbn [rev app]. rewrite rev_involutive.
       unfold t1. cbn [t_count]. reflexivity.
-    * rewrite <- ET in D3.
-      constructor; cbn [set_root t_stored t_gen t_count t_root]; auto.
-      -- rewrite S3, C3. exact PK2.
-      -- rewrite C3. exact C2.
-      -- rewrite C3. exact D3.
+    * rewrite <- ET in D3. split.
+      -- constructor; cbn [set_root t_stored t_gen t_count t_root]; auto.
+         ++ rewrite S3, C3. exact PK2.
+         ++ rewrite C3. exact C2.
+         ++ rewrite C3. exact D3.
+      -- unfold last_spine in *. cbn [set_root t_stored t_count]. rewrite S3, C3. exact LS2.
 Qed.
 
 End T.
